@@ -78,6 +78,19 @@ def space_subspace_slicing_equality(S):
     S.ensure("name-slice-from-y", keys(sl) == ["y", "z"])
     sl2 = I.getitem(sp, slice(None, "z"))
     S.ensure("name-slice-up-to-z-exclusive", keys(sl2) == ["x", "y"])
+    # every name slice (open or named ends, any step incl. negative ones) selects what the same slice selects from the
+    # ordered list of variable names -- the oracle is Python's own list slicing on the names
+    names = ["x", "y", "z"]
+    dims = {"x": dx, "y": dy, "z": dz}
+    for a in [None] + names:
+        for b in [None] + names:
+            for st in (None, 1, 2, -1, -2):
+                want = names[slice(None if a is None else names.index(a), None if b is None else names.index(b), st)]
+                got = I.getitem(sp, slice(a, b, st))
+                okk = keys(got) == want
+                S.ensure(f"name-slice-{a}:{b}:{st}-selects-the-sliced-name-list", okk and I.isinstance_(got, S.find(SPACE)))
+                if okk and want:
+                    S.ensure(f"name-slice-{a}:{b}:{st}-keeps-the-dimensions", z3.And([eqz(got.native[k], dims[k]) for k in want]))
     S.ensure("getitem-name-is-dimension", eqz(I.getitem(sp, "y"), dy))
     same = mul(S, mul(S, S.new(RN, "x", dx), S.new(RN, "y", dy)), S.new(RN, "z", dz))
     perm = mul(S, mul(S, S.new(RN, "y", dy), S.new(RN, "x", dx)), S.new(RN, "z", dz))
